@@ -8,6 +8,40 @@ HERE = os.path.dirname(os.path.dirname(os.path.abspath(__file__)))
 TECH = "custom AST static analysis: "
 
 CLAIMS = {
+    "C02": dict(
+        text="Decides structural necessary conditions of 'solve() only returns solutions or raises StopIteration/TimeoutError and then stays so': "
+        "arity of every dispatch table reachable from solve() in the call graph, the lexical exits of solve() and the provenance of what it returns, "
+        "stickiness as typestate (timeout test before any state change of an iteration, start_time armed once, nothing re-fills the queue after the "
+        "loop, the re-entrant probe restores state in finally and handles both documented exits). Does NOT decide exceptions raised deeper in the "
+        "elimination chain for particular formulas (asserts, NotImplementedError, RuntimeError) - those are inventoried only.",
+        note="Trusted: name-based call graph (over-approximate reachability); asserts are developer contracts; constraint in the supported fragment.",
+        technique=TECH + "call-graph reachability + dispatch-table arity, exit/raise classification with path facts, typestate ordering on solver fields",
+        design="5/C02",
+    ),
+    "C04": dict(
+        text="Decides that the registry binds exactly the documented predicate names/arities (read from sphinx/islaspec.rst) to distinct implementations of "
+        "matching arity, that same_position/different_position/inside/direct_child/before/after are the specified path relations on recognised shapes "
+        "(after = converse of before for ALL pairs incl. ancestor/descendant), and that predicates are pure. Does NOT decide nth/consecutive/level.",
+        note="Trusted: the table in the specification; paths as tuples of child indices.",
+        technique=TECH + "spec-table vs registry agreement, normalised-AST recognition of path relations, purity (no writes to parameters)",
+        design="5/C04",
+    ),
+    "C15": dict(
+        text="Decides that 'not recognised' (Nothing) can never be turned into a positive match (no truthy thunk defaults in boolean positions), that the "
+        "partial(handler, fallback) chain is acyclic, complete, correctly typed and ends in Nothing, and that compress_concatenation_elements only emits "
+        "elements of the current group under the star/plus guards. Does NOT decide exactness of interval bounds.",
+        note="Trusted: returns.Maybe.value_or semantics; z3 regex operator kinds.",
+        technique=TECH + "API-misuse lint tied to the property (value_or thunk), handler-chain wiring analysis, provenance of result elements",
+        design="5/C15",
+    ),
+    "C20": dict(
+        text="Decides the octal/decimal clause: a radix-tag (dimension) analysis over the octal_to_dec_* family proves octal strings are read in base 8, "
+        "decimal strings in base 10, oct() only applied to decimal-side numbers, compared values are integers, replacement trees use the parser of the "
+        "target radix; plus dispatch-table arity/coverage/argument order. Does NOT decide count/crop/just numeric meaning.",
+        note="Trusted: parameter names octal/decimal are the documented roles.",
+        technique=TECH + "three-tag radix/dimension dataflow, dispatch-table arity",
+        design="5/C20",
+    ),
     "C05": dict(
         text="Decides structural necessary conditions of 'ISLa's fast path answers as Z3 does and never raises instead': dispatch-table arity "
         "(operators without a Python case reach Z3), every consumer falls back to Z3 with the right verdict mapping, no escaping "
